@@ -360,7 +360,7 @@ func replay(c *vlib.Ctx, w string) {
 func init() {
 	vlib.Register(&vlib.Check{
 		ID: "C18", Engine: "E2",
-		Rule: "`a P` and `ja P` are run for (1) P=[m..n] for every (m,n) in [-B,B]^2 spelled plainly, (2) every pair of spellings (plain, width 2, width 3) of non-negative m,n in [0,Z] with at least one zero-padded bound, (3) every parameter L0 B1 L1 B2 L2 (B3 L3) with blocks Bi from a fixed set of ranges and comma lists ([1..2] [x,y] [2..1] [09..10]; thorough also [x] [-1..1] [x,y,z] [3..3]) and literals Li in {empty, a, -}. quick B=12 Z=12, thorough B=200 Z=110. The elements printed (lines of `a`, decoded JSON array of `ja`, numbers taken as their text) are compared with a reference generator: inclusive, direction by the order of the bounds, zero-padded to the width of the padded bound, cartesian product with the last block varying fastest; exit 0. non-trivial = everything except an ascending range of plainly spelled non-negative integers (i.e. descending, negative or zero-crossing, single-value, padded, multi-block)",
+		Rule:   "`a P` and `ja P` are run for (1) P=[m..n] for every (m,n) in [-B,B]^2 spelled plainly, (2) every pair of spellings (plain, width 2, width 3) of non-negative m,n in [0,Z] with at least one zero-padded bound, (3) every parameter L0 B1 L1 B2 L2 (B3 L3) with blocks Bi from a fixed set of ranges and comma lists ([1..2] [x,y] [2..1] [09..10]; thorough also [x] [-1..1] [x,y,z] [3..3]) and literals Li in {empty, a, -}. quick B=12 Z=12, thorough B=200 Z=110. The elements printed (lines of `a`, decoded JSON array of `ja`, numbers taken as their text) are compared with a reference generator: inclusive, direction by the order of the bounds, zero-padded to the width of the padded bound, cartesian product with the last block varying fastest; exit 0. non-trivial = everything except an ascending range of plainly spelled non-negative integers (i.e. descending, negative or zero-crossing, single-value, padded, multi-block)",
 		Run:    run,
 		Replay: replay,
 		Assumptions: []string{
